@@ -1629,7 +1629,7 @@ def run(chk):
             chk.violation(r_fi, "%s@%s[%s]" % (f["q"], arr[:30], idx[:30]), "%s: `%s` holds one entry per %s cell but is read at `%s`, a%s index: with inactive cells in the grid this is the entry of another cell (or beyond the end of the array)" % (f["q"], arr, ka, idx, "n active" if ki == "active" else " global"), f["file"], line)
 
     # ---- C05.ctrlphase: the active control of an injector, read back
-    r_cp = chk.rule("C05.ctrlphase", "LoadRestart.cpp injectorControlMode: the stored active-control code <P>Rate comes back as RATE exactly for an injector of phase P (OilRate with oil_injector, WatRate with water_injector, GasRate with gas_injector) and as undefined otherwise; ResVRate, THP, BHP, Group come back as RESV, THP, BHP, GRUP - a rate-controlled injector of one phase must not lose its control because the test names another phase; producerControlMode maps OilRate/WatRate/GasRate/LiqRate/ResVRate/THP/BHP/CombRate/Group to ORAT/WRAT/GRAT/LRAT/RESV/THP/BHP/CRAT/GRUP", floor=16)
+    r_cp = chk.rule("C05.ctrlphase", "LoadRestart.cpp injectorControlMode: the stored active-control code <P>Rate comes back as RATE exactly for an injector of phase P (OilRate with oil_injector, WatRate with water_injector, GasRate with gas_injector) and as undefined otherwise; ResVRate, THP, BHP, Group come back as RESV, THP, BHP, GRUP - a rate-controlled injector of one phase must not lose its control because the test names another phase; producerControlMode maps OilRate/WatRate/GasRate/LiqRate/ResVRate/THP/BHP/CombRate/Group to ORAT/WRAT/GRAT/LRAT/RESV/THP/BHP/CRAT/GRUP; the writer (Well::eclipseControlMode, both overloads) holds the inverse tables", floor=30)
     from verif import fallthrough as _ft5
     icm = [f for f in fx.fns if f["n"] == "injectorControlMode" and f.get("body") and f["file"].endswith("LoadRestart.cpp")]
     if len(icm) != 1:
@@ -1672,6 +1672,36 @@ def run(chk):
         chk.instance(r_cp, "prod:" + code_, sample=dict(code=code_, restored=got_pr.get(code_)))
         if got_pr.get(code_) != mode_:
             chk.violation(r_cp, "prod:" + code_, "producerControlMode restores the active control %s as %s; it must come back as %s" % (code_, got_pr.get(code_), mode_), pcm["file"], pcm["l"])
+    # the writer side (Well::eclipseControlMode): the inverse tables
+    wx5 = chk.facts(["opm/input/eclipse/Schedule/Well/Well.cpp"])
+    ecm = [f for f in wx5.fns if f["q"] == "Opm::Well::eclipseControlMode" and f.get("body")]
+    ecp = [f for f in ecm if len(f["params"]) == 1 and "ProducerCMode" in (f["params"][0].get("t") or "")]
+    eci = [f for f in ecm if len(f["params"]) == 2 and "InjectorCMode" in (f["params"][0].get("t") or "")]
+    if len(ecp) != 1 or len(eci) != 1:
+        raise core.AnalysisBroken("Well::eclipseControlMode: %d producer / %d injector overloads" % (len(ecp), len(eci)))
+    wsw = [n for n in walk(ecp[0]["body"]) if n.get("k") == "Switch"]
+    got_w = {}
+    for labels, sts in (_ft5.sections(wsw[0]) if len(wsw) == 1 else []):
+        m_ = re.search(r"return [\w:]*::(\w+);", " ".join(show(x) for x in sts))
+        for lab in labels:
+            got_w[lab.split("::")[-1]] = m_.group(1) if m_ else None
+    for code_, mode_ in WANT_PR.items():
+        chk.instance(r_cp, "write:" + mode_, sample=dict(mode=mode_, code=got_w.get(mode_)))
+        if got_w.get(mode_) != code_:
+            chk.violation(r_cp, "write:" + mode_, "Well::eclipseControlMode writes the producer control %s as %s; the reader maps %s back to %s, so it must be written as %s" % (mode_, got_w.get(mode_), code_, mode_, code_), ecp[0]["file"], ecp[0]["l"])
+    isw = [n for n in walk(eci[0]["body"]) if n.get("k") == "Switch"]
+    got_i = {}
+    for sw_ in isw:
+        for labels, sts in _ft5.sections(sw_):
+            m_ = re.search(r"^return [\w:]*::(\w+);$", " ".join(show(x) for x in sts).strip())
+            for lab in labels:
+                if m_:
+                    got_i[lab.split("::")[-1]] = m_.group(1)
+    WANT_IW = {"OIL": "OilRate", "WATER": "WatRate", "GAS": "GasRate", "RESV": "ResVRate", "THP": "THP", "BHP": "BHP", "GRUP": "Group"}
+    for lab_, code_ in WANT_IW.items():
+        chk.instance(r_cp, "writeinj:" + lab_, sample=dict(case=lab_, code=got_i.get(lab_)))
+        if got_i.get(lab_) != code_:
+            chk.violation(r_cp, "writeinj:" + lab_, "Well::eclipseControlMode (injector) writes the case %s as %s; it must be %s (the reader restores exactly that code for this injector phase / mode)" % (lab_, got_i.get(lab_), code_), eci[0]["file"], eci[0]["l"])
     miss_cp = [k_ for k_ in list(WANT_CP) + list(WANT_PL) if k_ not in seen_cp]
     if miss_cp:
         chk.violation(r_cp, "cases", "injectorControlMode has no case for %s" % miss_cp, icm["file"], icm["l"])
